@@ -32,9 +32,9 @@ func c16Alts(k reflect.Kind) int {
 	case reflect.Bool:
 		return 2
 	case reflect.Uint32, reflect.Int32, reflect.Uint64, reflect.Int64:
-		return 7
+		return len(c16Ints)
 	case reflect.String, reflect.Slice:
-		return 10
+		return len(c16Lens)
 	case reflect.Array:
 		return 2
 	case reflect.Ptr:
@@ -43,8 +43,8 @@ func c16Alts(k reflect.Kind) int {
 	return 0
 }
 
-var c16Ints = []uint64{0, 1, 2, 3, 1 << 31, 1<<32 - 1, 1<<64 - 1}
-var c16Lens = []int{0, 1, 3, 4, 5, 63, 64, 65, 255, 1025}
+var c16Ints = []uint64{0, 1, 2, 3, 4, 5, 6, 7, 8, 70, 10001, 1 << 31, 1<<32 - 1, 1<<64 - 1}
+var c16Lens = []int{0, 1, 3, 4, 5, 63, 64, 65, 255, 256, 1023, 1024, 1025}
 
 // sites enumerates deviation sites of the value reachable from v (following non-nil pointers up to a depth).
 func c16Sites(v reflect.Value, path string, get func(reflect.Value) reflect.Value, depth int, out *[]c16Site) {
@@ -496,7 +496,7 @@ func C16(r *report.Report, tier string) {
 	if tier == "thorough" {
 		pairs = 80
 	}
-	r.Rule = fmt.Sprintf("for each of the %d Xdr-able types of nfstypes (all NFS and MOUNT arguments/results): a baseline value and every value within 1 deviation (2 deviations for types with <=%d sites) - optional present/absent, list length, every integer in {0,1,2,3,2^31,2^32-1,2^64-1} (covers every union discriminant incl. undeclared), opaque/string lengths {0,1,3,4,5,63,64,65,255,1025}, booleans, fixed arrays - encoded with nfstypes and, after a field-by-field copy, with go-rpcgen's rfc1813 package generated from the RFC's prot.x: bytes must be equal (or both refuse), both decoders must return equal values, re-encoding must reproduce the bytes; every prefix, an extension and every 32-bit word substitution of up to 40 distinct encodings per type offered to both decoders: same accept/reject, same value, an accepted proper prefix must re-encode to itself; 11 hand-derived golden vectors (RFC 4506 layout); all 22+6 procedure numbers through the registration tables with a recording stub. distinct_nontrivial = distinct encodings produced", len(c16Types), pairs)
+	r.Rule = fmt.Sprintf("for each of the %d Xdr-able types of nfstypes (all NFS and MOUNT arguments/results): a baseline value and every value within 1 deviation (2 deviations for types with <=%d sites) - optional present/absent, list length, every integer in {0..8,70,10001,2^31,2^32-1,2^64-1} (covers every union discriminant incl. undeclared), opaque/string lengths {0,1,3,4,5,63,64,65,255,256,1023,1024,1025}, booleans, fixed arrays - encoded with nfstypes and, after a field-by-field copy, with go-rpcgen's rfc1813 package generated from the RFC's prot.x: bytes must be equal (or both refuse), both decoders must return equal values, re-encoding must reproduce the bytes; every prefix, an extension and every 32-bit word substitution of up to 40 distinct encodings per type offered to both decoders: same accept/reject, same value, an accepted proper prefix must re-encode to itself; 11 hand-derived golden vectors (RFC 4506 layout); all 22+6 procedure numbers through the registration tables with a recording stub. distinct_nontrivial = distinct encodings produced", len(c16Types), pairs)
 	var jobs []interface{}
 	for i := range c16Types {
 		jobs = append(jobs, c16Arg{Idx: i, Pairs: pairs})
